@@ -306,11 +306,16 @@ def directed_retry(ctx, txns, quick: bool):
     transaction 1 commits (so 0 will conflict and retry), 0 runs j more steps (into its retry), the collector runs k
     steps, 0 finishes, the collector finishes."""
     probe = run_case(ctx, txns, segment_chooser([("A0", 10**6), ("A1", 10**6), ("K", 10**6), ("G", 10**6)]), 5000)
-    # position of A0's base read (first pointer read inside Transaction.commit)
+    # A0's base read = the pointer read inside Transaction.commit.  Segments count SCHEDULER steps: step 1 starts the
+    # thread and parks it before its first yielding operation, every further step performs the parked operation and
+    # runs to the next yielding one -- so "performed through log entry n" = 1 + #yielding entries among a0[0..n].
     a0 = [e for e in probe["log"] if e["actor"] == "A0"]
     begin = next((n for n, e in enumerate(a0) if "Transaction.commit" in e["phase"] and e["op"] == "read_file" and P.path_class(e["path"]) == "hint"), 4)
-    i = begin + 2          # steps: thread start + ops 0..begin performed
-    na = len(a0) + 14      # a retry adds steps
+    # ... and through the metadata read that follows it (the base is in memory then)
+    while begin + 1 < len(a0) and not (a0[begin]["op"] == "read_file" and P.path_class(a0[begin]["path"]) == "meta"):
+        begin += 1
+    i = 1 + sum(1 for e in a0[:begin + 1] if yield_filter(e["op"], e["path"], e["phase"]))
+    na = sum(1 for a in probe["schedule"] if a == "A0") - i + 16      # the rest of the commit + a retry
     ng = sum(1 for a in probe["schedule"] if a == "G")
     combos = [(j, k) for j in range(0, na) for k in range(1, ng + 1)]
     if quick and len(combos) > 120:
